@@ -971,3 +971,53 @@ pub fn channel_awaiting_remote_revoke<CM: crate::ln::channelmanager::AChannelMan
 	let chan = peer_state.channel_by_id.get(channel_id)?.as_funded()?;
 	Some(chan.verif_is_awaiting_remote_revoke())
 }
+
+/// What `ChannelManager::from_channel_manager_data` compares against the `ChannelMonitor` on
+/// startup, read from a live manager (C10): `[latest_monitor_update_id,
+/// latest_unblocked_monitor_update_id, cur_holder_commitment_transaction_number,
+/// cur_counterparty_commitment_transaction_number,
+/// revoked_counterparty_commitment_transaction_number, blocked_monitor_updates_pending]`.
+pub fn channel_restart_numbers<CM: crate::ln::channelmanager::AChannelManager>(
+	node: &CM, counterparty_node_id: &bitcoin::secp256k1::PublicKey,
+	channel_id: &crate::ln::types::ChannelId,
+) -> Option<[u64; 6]> {
+	let cm = node.get_cm();
+	let per_peer_state = cm.per_peer_state.read().unwrap();
+	let peer_state = per_peer_state.get(counterparty_node_id)?.lock().unwrap();
+	let chan = peer_state.channel_by_id.get(channel_id)?.as_funded()?;
+	Some([
+		chan.context.get_latest_monitor_update_id(),
+		chan.get_latest_unblocked_monitor_update_id(),
+		chan.get_cur_holder_commitment_transaction_number(),
+		chan.get_cur_counterparty_commitment_transaction_number(),
+		chan.get_revoked_counterparty_commitment_transaction_number(),
+		chan.blocked_monitor_updates_pending() as u64,
+	])
+}
+
+/// The `update_id`s in `PeerState::in_flight_monitor_updates` for a channel (what the manager
+/// serializes as in-flight and replays on startup), in stored order (C10).
+pub fn manager_in_flight_update_ids<CM: crate::ln::channelmanager::AChannelManager>(
+	node: &CM, counterparty_node_id: &bitcoin::secp256k1::PublicKey,
+	channel_id: &crate::ln::types::ChannelId,
+) -> Vec<u64> {
+	let cm = node.get_cm();
+	let per_peer_state = cm.per_peer_state.read().unwrap();
+	let peer_state = match per_peer_state.get(counterparty_node_id) {
+		Some(p) => p.lock().unwrap(),
+		None => return Vec::new(),
+	};
+	peer_state.verif_in_flight_update_ids(channel_id)
+}
+
+/// The monitor-side numbers of the startup staleness comparison (crate-private getters):
+/// `[cur_holder_commitment_number, cur_counterparty_commitment_number, min_seen_secret]` (C10).
+pub fn monitor_restart_numbers<Signer: crate::sign::ecdsa::EcdsaChannelSigner>(
+	monitor: &crate::chain::channelmonitor::ChannelMonitor<Signer>,
+) -> [u64; 3] {
+	[
+		monitor.get_cur_holder_commitment_number(),
+		monitor.get_cur_counterparty_commitment_number(),
+		monitor.get_min_seen_secret(),
+	]
+}
